@@ -14,6 +14,8 @@
    every non-deciding continuation re-queues the picked package: stage 2.) *)
 From Coq Require Import List NArith Bool.
 From PG Require Import Model.VS Model.Term Model.Solver Proofs.SolverQueue.
+From Coq Require Import ZArith.
+From PG Require Import Model.Instances Proofs.SolverExamples.
 Import ListNotations.
 
 Section C14.
@@ -49,6 +51,14 @@ Section C14.
     - unfold pos_set. now rewrite Hs.
   Qed.
 End C14.
+
+(* non-vacuity: a recorded run over Range<Z> with a conflict and a backtrack has 4 decision points; at the
+   third, package 1 is undecided with the positive set "not 2" and is queued for exactly that set *)
+Example queue_covers_nonvacuous :
+  exists o st log cands q n2 z,
+    resolve zvs Z.eqb 100 0%N 1%Z tr2 = (o, st, log, 13) /\ nth_error log 2 = Some (cands, q, n2)
+    /\ In (1%N, not2) cands /\ get 1%N q = Some (z, not2).
+Proof. vm_compute. do 7 eexists. repeat split; try reflexivity. now left. Qed.
 
 Print Assumptions queue_covers_undecided_partial.
 Print Assumptions queue_covers_undecided_first.
